@@ -122,6 +122,44 @@ func npmShort(r *RNG, p *Pool) string {
 	}
 }
 
+// caret / tilde on partial versions (padPartial): arities 1 and 2, zeros, prefixes, spaces,
+// trailing dots, '-' / '+' (which disable the padding), 64-bit boundaries
+func npmPartialShort(r *RNG, p *Pool) string {
+	a, m, _ := npmMMP(r, p)
+	t := r.Pick([]string{"^", "~"})
+	if r.Chance(25) {
+		a = "0"
+	}
+	if r.Chance(25) {
+		m = "0"
+	}
+	if r.Chance(6) {
+		a = r.Pick(npmBigs)
+	}
+	if r.Chance(6) {
+		m = r.Pick(npmBigs)
+	}
+	pre := r.Pick([]string{"", "", "", "", "", "v", "=", "=v", " ", "v=v", "+", "-"})
+	switch r.Intn(12) {
+	case 0, 1, 2:
+		return t + pre + a
+	case 3, 4, 5:
+		return t + pre + a + "." + m
+	case 6:
+		return t + pre + a + r.Pick([]string{".", "..", ".0.", ". 0", ".x", ".*", ".X.0"})
+	case 7:
+		return t + pre + a + "." + m + r.Pick([]string{"-0", "-beta", "+b", ".", "-", "+", ".0-0", ".0+b"})
+	case 8:
+		return t + pre + a + r.Pick([]string{"-0", "-beta", "+b", "-", "+", "-1.2", "+1.2"})
+	case 9:
+		return r.Pick([]string{">=", "<", ""}) + npmBase(r, p) + " " + t + pre + a + "." + m
+	case 10:
+		return t + a + "." + m + r.Pick([]string{" || ", "||"}) + t + a
+	default:
+		return t + r.Pick([]string{"", "0", "0.0", "0.0.0", "00", "0.00", "1", "1.0", "01", "0.1", "0.01"})
+	}
+}
+
 func npmHyphen(r *RNG, p *Pool) string {
 	a, b := npmBase(r, p), npmBase(r, p)
 	switch r.Intn(12) {
@@ -215,6 +253,6 @@ func init() {
 		return old(r)
 	}
 	extraRangeGens["npm"] = append(extraRangeGens["npm"],
-		npmXRange, npmXRange, npmShort, npmShort, npmHyphen, npmHyphen, npmGroup, npmGroup, npmOr, npmOr, npmBad,
+		npmXRange, npmXRange, npmShort, npmShort, npmPartialShort, npmPartialShort, npmPartialShort, npmHyphen, npmHyphen, npmGroup, npmGroup, npmOr, npmOr, npmBad,
 		func(r *RNG, p *Pool) string { return npmCmp(r, p) })
 }
